@@ -468,6 +468,13 @@ impl<'t> DocGen<'t> {
     }
 
     pub fn element(&mut self, tag: &str, depth: u32) -> Node {
+        self.t.begin_group();
+        let node = self.element_inner(tag, depth);
+        self.t.end_group();
+        node
+    }
+
+    fn element_inner(&mut self, tag: &str, depth: u32) -> Node {
         let g = grammar();
         let el = g.elements.get(tag).unwrap_or_else(|| panic!("unknown element {tag}"));
         self.budget -= 1;
@@ -922,6 +929,12 @@ impl<'t> Renderer<'t> {
     }
 
     pub fn node(&mut self, n: &Node, indent: usize, first_in_file: bool) {
+        self.t.begin_group();
+        self.node_inner(n, indent, first_in_file);
+        self.t.end_group();
+    }
+
+    fn node_inner(&mut self, n: &Node, indent: usize, first_in_file: bool) {
         self.sep_element(indent, first_in_file);
         if n.block {
             self.tok("/begin", SpanKind::Begin);
@@ -1020,6 +1033,12 @@ impl<'t> Renderer<'t> {
     }
 
     pub fn include(&mut self, inc: &IncRef, indent: usize, first_in_file: bool) {
+        self.t.begin_group();
+        self.include_inner(inc, indent, first_in_file);
+        self.t.end_group();
+    }
+
+    fn include_inner(&mut self, inc: &IncRef, indent: usize, first_in_file: bool) {
         self.sep_element(indent, first_in_file);
         let start = self.out.len();
         self.tok("/include", SpanKind::Begin);
@@ -1084,10 +1103,12 @@ fn render_file_in(t: &mut Tape, path: &str, items: &[Item], lo: &LayoutOpts, bas
     let mut directives = a2ml_directives;
     for p in pending {
         // an included file has its own layout: own line-end convention is kept, the rest is drawn again
+        t.begin_group();
         let mut child_lo = LayoutOpts::swarm(t);
         child_lo.crlf = lo.crlf;
         child_lo.leading_blank = t.chance(1, 3);
         let file = render_file_in(t, &p.inc.path, &p.inc.items, &child_lo, base_indent, p.inc.in_ifdata);
+        t.end_group();
         directives.push(RDirective { start: p.start, end: p.end, line: p.line, name: p.inc.name.clone(), quoted: p.inc.quoted, a2ml_level: false, file });
     }
     RenderedFile { path: path.to_string(), text, spans, directives, feats }
